@@ -186,12 +186,29 @@ def check_slice_ref(res, facts):
     key = "bytes::Bytes::slice_ref|offsets"
     probs = []
     calls = [(bi, t) for bi, t in b.calls() if callee(t) and (callee(t).get("res") or callee(t))["path"] == "bytes::Bytes::slice"]
+    tail = False
+    if not calls:
+        # `slice` may have been split into bound resolution + a `(begin, end)` tail that `slice_ref` calls directly: the tail is the
+        # crate function that `Bytes::slice` itself ends in (judged there, helpers inlined)
+        sl = facts.by_id.get("bytes::Bytes::slice", [])
+        tails = set()
+        if len(sl) == 1:
+            for _, t2 in sl[0].calls():
+                f2 = callee(t2)
+                r2 = (f2.get("res") or {}) if f2 else {}
+                if r2.get("local") and r2.get("did") is not None and len(t2["args"]) == 3:
+                    tails.add(r2["did"])
+        calls = [(bi, t) for bi, t in b.calls() if callee(t) and ((callee(t).get("res") or {}).get("did") in tails) and len(t["args"]) == 3]
+        tail = bool(calls)
     if len(calls) != 1:
         probs.append("expected one call of self.slice(..)")
     else:
         bi, t = calls[0]
         loc = (bi, len(b.blocks[bi]["stmts"]))
-        rng = canon(eb.operand(t["args"][1], loc))
+        if tail:
+            rng = ("agg", "Range(tail)", (canon(eb.operand(t["args"][1], loc)), canon(eb.operand(t["args"][2], loc))))
+        else:
+            rng = canon(eb.operand(t["args"][1], loc))
         recv = strip_ref(canon(eb.operand(t["args"][0], loc)))
         if recv != ("param", 1):
             probs.append("slices something other than self")
